@@ -397,8 +397,8 @@ class Engine:
     def mk_tuple(self, vals, st):
         t = TupleT(*[x.ty for x in vals])
         for x in vals:
-            if x.ty is PY or x.ty.kind == 'NoneT':
-                # python-level tuple (cannot be stored in a container)
+            if x.ty is PY or x.ty.kind == 'NoneT' or (x.ty.args and x.ty.args[0].kind == 'Bottom'):
+                # python-level tuple (cannot be stored in a container); untyped empty literals get their type on coercion
                 return V(t, None, py=list(vals))
         return V(t, T.tup_mk(t, *[self.as_term(x, st) for x in vals]), py=list(vals))
 
